@@ -2032,6 +2032,10 @@ where
                 .write_sequence(self.into_tokens())
                 .context(PrintDataSetSnafu)?;
 
+            // make the adapter emit everything it is still holding,
+            // so that a failing writer is reported instead of ignored on drop
+            dset_writer.flush().context(PrintDataSetSnafu)?;
+
             Ok(())
         } else {
             // prepare data set writer
@@ -2078,6 +2082,10 @@ where
             dset_writer
                 .write_sequence(self.into_tokens_with_options(required_options))
                 .context(PrintDataSetSnafu)?;
+
+            // make the adapter emit everything it is still holding,
+            // so that a failing writer is reported instead of ignored on drop
+            dset_writer.flush().context(PrintDataSetSnafu)?;
 
             Ok(())
         } else {
